@@ -95,9 +95,10 @@ def ww3(env, dirs, latlon_time, winds):
     from vt.refs.integrals import widths_f
     _variance(env, o.values, o.freq.values, o.dir.values, info["e"], widths_f(list(info["f"])), 2 * math.pi / len(info["d"]), "ww3")
     env.claim("lon" in out and "time" not in out["lon"].dims, "lon/lat do not depend on time")
+    first_values = np.array(o.values, copy=True)     # a snapshot: the second result must not be compared with a buffer it may share
     via = read_dataset(ds)
     env.claim(set(via.efth.dims) == set(out.efth.dims), "read_dataset identifies the WW3 layout")
-    env.close(via.efth.transpose(*o.dims).values, o.values, "read_dataset == from_ww3", rel=0.0, abs_=0.0, ctol=1e-12, catol=0.0)
+    env.close(via.efth.transpose(*o.dims).values, first_values, "read_dataset == from_ww3 (a second conversion of the same native dataset gives the same spectra)", rel=0.0, abs_=0.0, ctol=1e-12, catol=0.0)
     if winds:
         env.claim("wspd" in out and "wdir" in out and "dpt" in out, "wind and depth variables kept under their standard names")
 
@@ -118,9 +119,10 @@ def ncswan(env, dirs, winds):
     _bins(env, o.values, info["e"], o.freq.values, o.dir.values, info["f"], phys, math.pi / 180.0, "ncswan")
     from vt.refs.integrals import widths_f
     _variance(env, o.values, o.freq.values, o.dir.values, info["e"], widths_f(list(info["f"])), math.radians(_circ_width(phys)), "ncswan")
+    first_values = np.array(o.values, copy=True)
     with env.lazy_sqrt():
         via = read_dataset(ds)
-    env.close(via.efth.transpose(*o.dims).values, o.values, "read_dataset == from_ncswan", rel=0.0, abs_=0.0, ctol=1e-12, catol=0.0)
+    env.close(via.efth.transpose(*o.dims).values, first_values, "read_dataset == from_ncswan (a second conversion of the same native dataset gives the same spectra)", rel=0.0, abs_=0.0, ctol=1e-12, catol=0.0)
     if winds:
         _winds(env, out, info["u"], info["v"], "ncswan")
 
@@ -168,9 +170,10 @@ def wwm(env, dirs, winds):
     from vt.refs.integrals import widths_f
     dsig = widths_f(list(info["sig"]))
     _variance(env, o.values, o.freq.values, o.dir.values, info["e"], dsig, math.radians(_circ_width(phys)), "wwm", jac=list(info["sig"]))
+    first_values = np.array(o.values, copy=True)
     with env.lazy_sqrt():
         via = read_dataset(ds)
-    env.close(via.efth.transpose(*o.dims).values, o.values, "read_dataset == from_wwm", rel=0.0, abs_=0.0, ctol=1e-12, catol=0.0)
+    env.close(via.efth.transpose(*o.dims).values, first_values, "read_dataset == from_wwm (a second conversion of the same native dataset gives the same spectra)", rel=0.0, abs_=0.0, ctol=1e-12, catol=0.0)
     if winds:
         _winds(env, out, info["u"], info["v"], "wwm")
 
@@ -217,9 +220,10 @@ def ndbc(env, directional, alt):
     dd = 60.0
     out = from_ndbc(ds, directional=True, dd=dd)
     if not alt:
+        first_values = np.array(out.efth.values, copy=True)
         via = read_dataset(ds, directional=True, dd=dd)
         env.claim(set(via.efth.dims) == set(out.efth.dims), "read_dataset identifies the NDBC layout")
-        env.close(via.efth.transpose(*out.efth.dims).values, out.efth.values, "read_dataset == from_ndbc", rel=0.0, abs_=0.0, ctol=1e-12, catol=0.0)
+        env.close(via.efth.transpose(*out.efth.dims).values, first_values, "read_dataset == from_ndbc", rel=0.0, abs_=0.0, ctol=1e-12, catol=0.0)
     ef = info["ef"]
     if not directional:
         env.claim("dir" not in out.efth.dims, "ndbc without directional moments is returned as 1D")
